@@ -134,13 +134,13 @@ def main():
         "setup_cmd": "bin/check build",
         "hooks": {
             "guard": "verif",
-            "enable": "go test -c -tags verif ./props (in /verif/sim, module replace => /repo); hooks are no-op functions without the tag",
+            "enable": "go test -c -tags verif ./props in /verif/sim; the module's replace directive points at /verif/.build/inst, a scratch copy of /repo's current working tree remade by every build, into which sim/autoyield additionally inserts park points before lock/atomic statements (that instrumentation is never written to /repo); the committed hooks are no-op functions without the tag",
             "baseline_off_cmd": "cd /repo && GOFLAGS=-mod=mod go test -json -vet=off -count=1 -timeout 25m ./...",
             "source_commits": [c.split()[0] for c in commits],
             "add_only": True,
         },
         "engines": [{"name": "detsim", "path": "/verif/sim", "serves_properties": [c["property_id"] for c in checks],
-                     "kind_free_text": "deterministic simulation with fault injection: seeded choice tape, cooperative scheduler over a testing/synctest bubble, simulated disk/getter/peers, reference-model oracles, tape shrinking and replay"}],
+                     "kind_free_text": "deterministic simulation with fault injection: seeded choice tape, cooperative scheduler over a testing/synctest bubble, park points at seams, tagged hooks and mechanically inserted lock/atomic sites, simulated disk/getter/peers, reference-model oracles, tape shrinking and replay"}],
         "checks": checks,
         "not_applicable": na,
         "notes": "All checks: bin/check <id> --tier quick|thorough [--seed N]; VERIF_SEED and VERIF_TIER are honoured. Exit 0 held / 1 VIOLATION (replay-confirmed) / 2 harness trouble. Known findings: /verif/known_findings.json.",
